@@ -292,6 +292,7 @@ func profileFor(prop string) Profile {
 		p.Gc = 12
 		p.GcOn = true
 		p.Restart = 1
+		p.StableSizes = true
 	case "C10":
 		p.Restart = 8
 	case "C03":
@@ -351,6 +352,9 @@ func TestSeq(t *testing.T) {
 	})
 	if prop == "C12" {
 		shardReplay(t, hs, res)
+	}
+	if prop == "C13" {
+		gcMetamorphic(t, hs, res)
 	}
 	// corpus and witnesses first in the list so they are always compared and monitored
 	hs = append(corpus(t, prop), hs...)
@@ -530,6 +534,65 @@ func shardReplay(t *testing.T, hs []*History, res *common.Result) {
 						}
 						mu.Unlock()
 					}
+				}
+			})
+		}
+	})
+}
+
+
+// gcMetamorphic (C13): every history (sizes are a function of the name, so re-creation with another
+// size cannot happen) is replayed on the real server with garbage collection switched off; every
+// client-visible response must be identical. Implementation against implementation.
+func gcMetamorphic(t *testing.T, hs []*History, res *common.Result) {
+	var mu sync.Mutex
+	t.Run("nogc", func(t *testing.T) {
+		for w := 0; w < 16; w++ {
+			w := w
+			t.Run(fmt.Sprint("w", w), func(t *testing.T) {
+				t.Parallel()
+				for i := w; i < len(hs); i += 16 {
+					h := hs[i]
+					if h == nil || h.Fatal != "" {
+						continue
+					}
+					cfg := h.Cfg
+					cfg.GcInt = 1000 * 3600 * 1e9
+					ops := h.Ops()
+					for j := range ops {
+						if ops[j].Kind == "gc" {
+							ops[j] = impl.Op{Kind: "adv", D: 0}
+						}
+					}
+					g := runImpl(t, h.Idx, cfg, &fixedSource{ops: ops}, nil)
+					mu.Lock()
+					res.Count("gc-off-replays")
+					for j := range h.Steps {
+						if j >= len(g.Steps) || (h.TieAt >= 0 && j >= h.TieAt) {
+							break
+						}
+						a, b := channels(h.Steps[j].Impl)["r"], channels(g.Steps[j].Impl)["r"]
+						if a == b {
+							continue
+						}
+						sig := "seq:gc-visible:response"
+						// the one recorded difference: a FAILING Unlock names a different reason
+						ea, eb := h.Steps[j].Resp.Err, g.Steps[j].Resp.Err
+						if (h.Steps[j].Op.Kind == "unlock" || h.Steps[j].Op.Kind == "ipcunlock") && !h.Steps[j].Resp.Ok && !g.Steps[j].Resp.Ok &&
+							ea == "LockDoesNotExist" && eb == "InvalidLockKey" {
+							sig = "seq:gc-visible:failing-unlock-error-code"
+						}
+						rp := replay(h, j, "r")
+						rp["without_gc"] = g.Steps[j].Impl
+						rp["model_agrees"] = h.DisAt < 0 || h.DisAt > j
+						res.Find(common.Finding{Kind: "violation", Property: "C13", Signature: sig,
+							What:   fmt.Sprintf("with garbage collection %q answers %q, without it %q", h.Steps[j].Op.Line(), a, b),
+							Replay: rp})
+						if sig == "seq:gc-visible:response" {
+							break
+						}
+					}
+					mu.Unlock()
 				}
 			})
 		}
